@@ -2,6 +2,7 @@ package props
 
 import (
 	"fmt"
+	"go/token"
 	"go/types"
 	"sort"
 	"strings"
@@ -21,9 +22,10 @@ func init() {
 			"no function reachable from the run-time region (Store.Instantiate, the ModuleEngine/api.Function/api.Memory/api.Global/api.Module method sets, the call engines, the WASI host functions, Runtime.InstantiateModule) writes memory owned by those objects or an alias of it " +
 			"(field-based may-alias analysis over all module functions; writes to objects allocated in the same activation are exempt; lazily initialised caches are listed one by one with the synchronisation that makes them safe). " +
 			"(R11.3) what Instantiate stores into per-instance slots that can be written later (data/element instances, tables, globals, memory) is allocated during that instantiation, not taken from the shared objects; (R11.4) no package-level variable is written in the run-time region. " +
-			"NOT decided: isolation at the level of generated machine code (module-context offsets), file-descriptor level sharing through embedder-supplied objects.",
+			"(R11.5) the WASI / file-system state packages never write, at run time, through a package-level slice, map or pointer (which every instance of the process would share). NOT decided: isolation at the level of generated machine code (module-context offsets), file-descriptor level sharing through embedder-supplied objects.",
 		Assumptions: []string{"the lazily initialised caches listed in checker/props/c11.go are idempotent and guarded as stated there", "functions outside the module do not retain their arguments (writers listed in checker/core/alias.go)"},
 		Rules: []core.Rule{
+			{ID: "R11.5", Template: "T-OWN", Text: "the WASI / file-system state packages never write through a package-level slice, map or pointer at run time", Min: 1},
 			{ID: "R11.0", Template: "anchor", Text: "shared-object types = struct types reachable from wasm.Module, from the engines' compiledModule types and the configuration types; run-time region = functions reachable from the instantiate/call/host-function roots", Min: 2},
 			{ID: "R11.1", Template: "T-WHOWRITES", Text: "no write to shared-object memory (or an alias of it) from the run-time region", Min: 1},
 			{ID: "R11.3", Template: "T-OWN", Text: "per-instance mutable containers are allocated in the instantiate path", Min: 3},
@@ -31,6 +33,7 @@ func init() {
 		},
 		Run: runC11,
 		Controls: []core.Control{
+			{Name: "dot-entries-shared-backing-array", File: "internal/sys/fs.go", Old: "\tresult := [2]sys.Dirent{}\n\tresult[0] = sys.Dirent{Name: \".\", Ino: dotIno, Type: fs.ModeDir}\n", New: "\tresult := sharedDots\n\tresult[0] = sys.Dirent{Name: \".\", Ino: dotIno, Type: fs.ModeDir}\n", Old2: "// exhaustedDirents avoids allocating empty slices.", New2: "var sharedDots = make([]sys.Dirent, 2)\n\n// exhaustedDirents avoids allocating empty slices.", Rule: "R11.5", Substr: "sharedDots"},
 			{Name: "datadrop-writes-module", File: "internal/engine/interpreter/interpreter.go", Old: "\t\tcase operationKindDataDrop:\n\t\t\tdataInstances[op.U1] = nil", New: "\t\tcase operationKindDataDrop:\n\t\t\tdataInstances[op.U1] = nil\n\t\t\tm.Source.DataSection[op.U1].Init = nil", Rule: "R11.1", Substr: "callNativeFunc"},
 			{Name: "instances-share-data-slice", File: "internal/wasm/store.go", Old: "\tm.DataInstances = make([][]byte, len(data))\n", New: "\tif sharedDataTemplate == nil {\n\t\tsharedDataTemplate = map[*DataSegment][][]byte{}\n\t}\n\tif len(data) > 0 && sharedDataTemplate[&data[0]] == nil {\n\t\tsharedDataTemplate[&data[0]] = make([][]byte, len(data))\n\t}\n\tif len(data) > 0 {\n\t\tm.DataInstances = sharedDataTemplate[&data[0]]\n\t} else {\n\t\tm.DataInstances = nil\n\t}\n", Rule: "R11.4", Substr: "package-level", Old2: "// applyData uses the given data segments", New2: "var sharedDataTemplate map[*DataSegment][][]byte\n\n// applyData uses the given data segments"},
 			{Name: "runtime-scratch-in-module", File: "internal/wasm/memory.go", Old: "func (m *MemoryInstance) Definition() api.MemoryDefinition {\n", New: "func (m *MemoryInstance) Definition() api.MemoryDefinition {\n\tlastDefinitionLookup = m\n", Rule: "R11.4", Substr: "package-level", Old2: "// Size implements the same method as documented on api.Memory.", New2: "var lastDefinitionLookup *MemoryInstance\n\n// Size implements the same method as documented on api.Memory."},
@@ -103,6 +106,8 @@ func namedIn(c *core.Ctx, rel, name string) *types.Named {
 }
 
 func runC11(c *core.Ctx) {
+	c.SSA()
+	checkGlobalWrites(c)
 	c.SSA()
 	// ---- shared-object types
 	var roots []*types.Named
@@ -505,4 +510,70 @@ func locksReceiverMutexOnEntry(fn *ssa.Function) bool {
 		}
 	}
 	return true
+}
+
+// ---- R11.5 instance-state packages do not write through package-level reference variables at run time ----
+
+var sharedGlobalWriteOK = map[string]string{}
+
+func checkGlobalWrites(c *core.Ctx) {
+	rels := []string{"internal/sys", "internal/sysfs", "internal/descriptor", "imports/wasi_snapshot_preview1", "internal/wasip1", "internal/sock", "internal/fsapi", "experimental/sys", "experimental/sysfs"}
+	n := 0
+	var fnCount int
+	for _, fn := range moduleFns(c, rels...) {
+		if fn.Name() == "init" || strings.HasPrefix(fn.Name(), "init#") || fn.Synthetic != "" {
+			continue
+		}
+		fnCount++
+		rootGlobal := func(v ssa.Value) *ssa.Global {
+			for d := 0; d < 8 && v != nil; d++ {
+				switch x := v.(type) {
+				case *ssa.IndexAddr:
+					v = x.X
+				case *ssa.FieldAddr:
+					v = x.X
+				case *ssa.Slice:
+					v = x.X
+				case *ssa.UnOp:
+					if g, ok := x.X.(*ssa.Global); ok && x.Op == token.MUL {
+						switch g.Type().(*types.Pointer).Elem().Underlying().(type) {
+						case *types.Slice, *types.Map, *types.Pointer:
+							return g
+						}
+						return nil
+					}
+					v = x.X
+				default:
+					return nil
+				}
+			}
+			return nil
+		}
+		for _, b := range fn.Blocks {
+			for _, in := range b.Instrs {
+				var g *ssa.Global
+				switch x := in.(type) {
+				case *ssa.Store:
+					if _, direct := x.Addr.(*ssa.Global); direct {
+						continue // re-assignment of the variable itself is a different (visible) pattern
+					}
+					g = rootGlobal(x.Addr)
+				case *ssa.MapUpdate:
+					g = rootGlobal(x.Map)
+				}
+				if g == nil || g.Pkg == nil || !strings.HasPrefix(g.Pkg.Pkg.Path(), core.Module) {
+					continue
+				}
+				n++
+				key := strings.TrimPrefix(g.Pkg.Pkg.Path(), core.Module+"/") + "." + g.Name()
+				_, ok := sharedGlobalWriteOK[key]
+				c.Check(ok, "R11.5", "run-time write through package-level "+key+" in "+core.SSAFuncName(fn), in.Pos(), "listed as instance-independent",
+					"a function that runs on behalf of one instance writes through the package-level variable "+key+" (a slice/map/pointer shared by every instance and runtime in the process): what one instance stores is observed by another that was never linked to it")
+			}
+		}
+	}
+	c.Count("instance_state_functions_scanned", fnCount)
+	if n == 0 {
+		c.Discharge("R11.5", "no run-time write through a package-level reference variable in the instance-state packages", 0, fmt.Sprintf("%d functions scanned", fnCount))
+	}
 }
